@@ -1,6 +1,7 @@
 """C11 - concurrent pushes reach the socket whole and in order (narrow: per-reactor structure)."""
 import ast
 
+from ..cfg import CFG, Flow
 from ..core import AnalysisError, chain, src, body_walk, parent, walk_no_nested
 from ..locks import held
 
@@ -68,7 +69,14 @@ def check(chk):
     ifs = [n for n in push.body if isinstance(n, ast.If) and any(h in list(ast.walk(n)) for h in handoffs)]
     good = len(ifs) == 1 and len(handoffs) == 2 and any(handoffs[0] in list(ast.walk(s)) for s in ifs[0].body) != any(handoffs[1] in list(ast.walk(s)) for s in ifs[0].body)
     chk.judge(good, 'C11.atomic', push, 'push: exactly one hand-off per call (loop thread vs other thread)', 'a push may hand off twice or not at all')
-    chk.judge('self._loop_thread.ident != get_ident()' in src(push), 'C11.atomic', push, 'threadsafe scheduling exactly when called off the loop thread', 'thread test changed')
+    gp = CFG(push)
+    flp = Flow(gp, 0, lambda n, c: c)
+    okt = len(handoffs) == 2
+    for h in handoffs:
+        nd = [n for n in gp.stmt_nodes() if n.kind == 'stmt' and any(h is x for x in ast.walk(n.ast))]
+        threadsafe = 'threadsafe' in src(h.func)
+        okt = okt and len(nd) == 1 and all(fa.knows('self._loop_thread.ident == get_ident()') is (not threadsafe) for fa, _ in flp.at(nd[0]))
+    chk.judge(okt, 'C11.atomic', push, 'threadsafe scheduling exactly when called off the loop thread', 'thread test changed')
     pm = am.func('AsyncioConnection._push_msg')
     chk.judge(isinstance(pm, ast.AsyncFunctionDef), 'C11.idiom', pm, '_push_msg is a coroutine', '_push_msg is not async')
     withs = [n for n in body_walk(pm) if isinstance(n, (ast.With, ast.AsyncWith))]
